@@ -46,13 +46,13 @@ func c16Cases(tier string) []c16Case {
 func init() {
 	register(&Prop{
 		ID: "C16", Level: "exploration",
-		Rule:        "enumerated cases: every collection size n in 0..130 (quick) / 0..600 (thorough) plus {1023..1026, 2047..2050, 3071..3074, 4095..4098} x key shape {fixed-width decimal, variable width, binary} x store kind {memory-only, flushed+evicted+re-opened file}. Each case checks Len() and the multiset of keys delivered by VisitItemsAscendBlockEx under the block manglers {nil, identity, reverse, rotate-by-1, rotate-by-half, two seeded permutations, RandBm} in both value modes and by VisitItemsRandom (twice): every key exactly once. For n = 0 a nil or non-nil error with zero deliveries is accepted. Non-trivial = n >= 1; distinct = distinct (n, shape, store kind).",
+		Rule:        "enumerated cases: every collection size n in 0..130 (quick) / 0..600 (thorough) plus {1023..1026, 2047..2050, 3071..3074, 4095..4098} x key shape {fixed-width decimal, variable width, binary} x store kind {memory-only, flushed+evicted+re-opened file}. Each case checks Len() and the multiset of keys delivered by VisitItemsAscendBlockEx under the block manglers {nil, identity, reverse, rotate-by-1, rotate-by-half, two seeded permutations, RandBm} in both value modes and by VisitItemsRandom (twice): every key exactly once. Afterwards the same handle is checked again after 1, 2, 3 and 4 further inserts/deletes (Len, Random, reversed BlockEx). For n = 0 a nil or non-nil error with zero deliveries is accepted. Non-trivial = n >= 1; distinct = distinct (n, shape, store kind).",
 		Assumptions: []string{"single goroutine; block manglers return a permutation of their input"},
 		Exhaustive:  func(string) bool { return true },
 		NumCases:    func(tier string) int { return len(c16Cases(tier)) },
 		Run:         runC16,
 		Floor: func(tier string, st map[string]int64) string {
-			for _, k := range []string{"c16.len-checked", "c16.block-visits", "c16.random-visits", "c16.partial-last-block", "c16.over-max-blocks", "c16.empty"} {
+			for _, k := range []string{"c16.len-checked", "c16.block-visits", "c16.random-visits", "c16.partial-last-block", "c16.over-max-blocks", "c16.empty", "c16.len-after-mutations"} {
 				if st[k] == 0 {
 					return "no " + k + " observed"
 				}
@@ -229,6 +229,51 @@ func runC16(ctx *Ctx, idx int) Result {
 	for i := 0; i < 2; i++ {
 		check("VisitItemsRandom", func(v gkvlite.ItemVisitorEx) error { return c.VisitItemsRandom(v) })
 		ctx.Stats["c16.random-visits"]++
+	}
+	// the same collection handle again after 1, 2, 3 and 4 further mutations (version handles
+	// and nodes are recycled in between, so anything remembered about an old version is stale)
+	for k := 1; k <= 4 && !e.Failed() && cs.n <= 700; k++ {
+		for j := 0; j < k; j++ {
+			nk := []byte(fmt.Sprintf("~later-%d-%d", k, j))
+			if k%2 == 1 && (k+j)%2 == 0 && len(keys) > 0 { // odd k: mixed; even k: inserts only, so that the count really changes
+				var victim string
+				for kk := range keys {
+					if victim == "" || kk < victim {
+						victim = kk
+					}
+				}
+				e.Delete("x", []byte(victim))
+				delete(keys, victim)
+			} else {
+				e.SetItem("x", nk, []byte("later"), int32(r.U64()&0x7fffffff), false)
+				keys[string(nk)] = true
+			}
+		}
+		want := len(keys)
+		func() {
+			defer func() {
+				if p := recover(); p != nil {
+					e.Failf(sig("panic/Len-after-mutations"), "Len() panicked after %d further mutations: %v", k, p)
+				}
+			}()
+			l, err := c.Len()
+			if want == 0 && err != nil {
+				return
+			}
+			if err != nil || l != int64(want) {
+				e.Failf("C16/len-wrong-after-further-mutations", "Len() = %d, %v after %d further mutations; the collection holds %d items", l, err, k, want)
+			}
+		}()
+		ctx.Stats["c16.len-after-mutations"]++
+		if want > 0 && !e.Failed() {
+			cs2 := cs
+			cs2.n = want
+			saved := cs
+			cs = cs2
+			check("VisitItemsRandom", func(v gkvlite.ItemVisitorEx) error { return c.VisitItemsRandom(v) })
+			check("VisitItemsAscendBlockEx/reverse", func(v gkvlite.ItemVisitorEx) error { return c.VisitItemsAscendBlockEx(false, manglers[2].f, v) })
+			cs = saved
+		}
 	}
 	if cs.n == 0 {
 		ctx.Stats["c16.empty"]++
